@@ -165,6 +165,42 @@ theorem C10_trace_prefix (cfg : Cfg) (M : Nat → Nat → S) (t1 t2 : S)
         · exact ⟨trace cfg M t2 n cs', by simp⟩
         · exact List.prefix_refl _
 
+/-- **C10 over an observed trace**: if every recorded step is a merge of two entries, every
+recorded state is refined by … i.e. contained cluster-wise in the last one.  (The harness checks
+separately that the trace recorded at `t₁` is a prefix of the one recorded at `t₂`.) -/
+theorem C10_of_observed (tr : List St) (h : chainOkb tr = true) :
+    ∀ k (hk : k < tr.length), ∀ l (hl : l < tr.length), k ≤ l → Refines tr[k] tr[l] := by
+  induction tr with
+  | nil => intro k hk; simp at hk
+  | cons a rest ih =>
+    cases rest with
+    | nil =>
+      intro k hk l hl _
+      simp at hk hl; subst hk hl
+      exact Refines.refl _
+    | cons b rest =>
+      simp only [chainOkb, Bool.and_eq_true] at h
+      obtain ⟨hm, hc⟩ := h
+      have hab : Refines a b := by
+        simp only [isMergeb, List.any_eq_true, List.mem_range, Bool.and_eq_true, bne_iff_ne, ne_eq,
+          beq_iff_eq] at hm
+        obtain ⟨p, hp, q, hq, hne, rfl⟩ := hm
+        exact refines_mergeAt a p q hp hq hne
+      intro k hk l hl hkl
+      cases k with
+      | zero =>
+        cases l with
+        | zero => exact Refines.refl _
+        | succ l =>
+          simp only [List.length_cons] at hl
+          exact hab.trans (ih hc 0 (by simp) l (by simp; omega) (Nat.zero_le _))
+      | succ k =>
+        cases l with
+        | zero => omega
+        | succ l =>
+          simp only [List.length_cons] at hk hl
+          exact ih hc k (by simp; omega) l (by simp; omega) (by omega)
+
 /-! ### Terminal state -/
 
 /-- no further merge is offered at a value `<= t` -/
